@@ -1,6 +1,7 @@
 package props
 
 import (
+	"sort"
 	"go/constant"
 	"go/token"
 	"go/types"
@@ -61,6 +62,13 @@ func ruleVersionArgs(c *Ctx, p *core.Program, rule string) {
 				a := args[off+i]
 				o := core.FieldOrigin(a, 0)
 				key := core.CallKey(fn, call)
+				if pr, isParam := stripConv(a).(*ssa.Parameter); isParam && o != "Client.protocolVersion" && o != "decodeOptions.ProtocolVersion" {
+					// a helper of package ch that is handed the revision: judged by what its callers hand it
+					if from, ok := paramRevisionOrigins(p, fn, pr, 0); ok {
+						c.R.Ok(rule, key, cfg, p.Pos(call.Pos()), "parameter "+pr.Name()+" of "+fn.Name()+": every caller passes "+from)
+						continue
+					}
+				}
 				switch o {
 				case "Client.protocolVersion":
 					c.R.Ok(rule, key, cfg, p.Pos(call.Pos()), "negotiated revision")
@@ -114,6 +122,74 @@ func ruleVersionArgs(c *Ctx, p *core.Program, rule string) {
 			c.R.Bad(rule, "decodeOptions.ProtocolVersion", cfg, p.Pos(db.Pos()), sprintf("default from negotiated revision: %v; overridden by a caller: %v", found, set))
 		}
 	}
+}
+
+// paramRevisionOrigins: every static caller (in package ch) of fn passes for parameter pr a load of
+// Client.protocolVersion / decodeOptions.ProtocolVersion, or its own parameter that satisfies the same.
+func paramRevisionOrigins(p *core.Program, fn *ssa.Function, pr *ssa.Parameter, depth int) (string, bool) {
+	if depth > 2 {
+		return "", false
+	}
+	idx := -1
+	for i, q := range fn.Params {
+		if q == pr {
+			idx = i
+		}
+	}
+	if idx < 0 {
+		return "", false
+	}
+	if fn.Object() != nil && fn.Object().Exported() {
+		return "", false // callable from outside with any value
+	}
+	seen := map[string]bool{}
+	callers := 0
+	for _, g := range p.Funcs() {
+		if g.Pkg == nil || g.Pkg.Pkg.Path() != core.PkgCh {
+			continue
+		}
+		for _, b := range g.Blocks {
+			for _, in := range b.Instrs {
+				// the helper used as a value escapes the argument check
+				if mc, ok := in.(*ssa.MakeClosure); ok && mc.Fn == ssa.Value(fn) {
+					return "", false
+				}
+			}
+		}
+		for _, call := range core.Calls(g) {
+			if core.StaticFn(call) != fn {
+				continue
+			}
+			args := call.Common().Args
+			if idx >= len(args) {
+				return "", false
+			}
+			callers++
+			a := args[idx]
+			o := core.FieldOrigin(a, 0)
+			switch o {
+			case "Client.protocolVersion", "decodeOptions.ProtocolVersion":
+				seen[o] = true
+				continue
+			}
+			if q, ok := stripConv(a).(*ssa.Parameter); ok {
+				if from, ok := paramRevisionOrigins(p, g, q, depth+1); ok {
+					seen[from] = true
+					continue
+				}
+			}
+			return "", false
+		}
+	}
+	if callers == 0 {
+		return "", false
+	}
+	var names []string
+	for k := range seen {
+		names = append(names, k)
+	}
+	sort.Strings(names)
+	return strings.Join(names, " / "), true
 }
 
 // ruleVersionPassThrough: inside package proto a codec hands the revision it was given on unchanged.
@@ -359,6 +435,7 @@ func runC13(c *Ctx) {
 	ruleOptionDefaults(c, p, "C13.defaults")
 	ruleConnChannel(c, p, "C13.conn-channel")
 	ruleCodeWidth(c, p, "C13.codewidth")
+	ruleSettingsEnd(c, p, "C13.settings-end")
 	hs := p.Method(core.PkgCh, "Client", "handshake")
 	if !c.must(p, "(*ch.Client).handshake", hs != nil) {
 		return
@@ -374,6 +451,7 @@ func runC13(c *Ctx) {
 		return
 	}
 
+	ruleWatchdogStandDown(c, p, "C13.watchdog", hs, hg)
 	// ---- C13.min
 	downgradeIf, downgradeSite := ruleNegotiatedMin(c, p, "C13.min", hg)
 	_ = downgradeIf
@@ -1092,6 +1170,64 @@ func ruleOptionDefaults(c *Ctx, p *core.Program, rule string) {
 		}
 	}
 	c.R.Floor(rule, cfg, n, 4)
+	// every way of making a client applies them: Connect (used directly with a caller-provided conn, and by
+	// Dial) reaches the defaulting store of each Options field it reads for which a Default<F> exists
+	cn := p.Func(core.PkgCh, "Connect")
+	if cn == nil {
+		return
+	}
+	defaulted := map[string]bool{}
+	for g := range core.StaticReach(cn, 2) {
+		if pkgOf(g) == nil || pkgOf(g).Path() != core.PkgCh {
+			continue
+		}
+		for _, b := range g.Blocks {
+			for _, in := range b.Instrs {
+				st, ok := in.(*ssa.Store)
+				if !ok {
+					continue
+				}
+				fa, ok := st.Addr.(*ssa.FieldAddr)
+				if !ok || !core.IsNamed(fa.X.Type(), core.PkgCh, "Options") {
+					continue
+				}
+				if _, isConst := stripConv(st.Val).(*ssa.Const); isConst {
+					defaulted[fieldNameOnly(fa.X.Type(), fa.Field)] = true
+				}
+			}
+		}
+	}
+	used := map[string]token.Pos{}
+	for _, b := range cn.Blocks {
+		for _, in := range b.Instrs {
+			switch x := in.(type) {
+			case *ssa.FieldAddr:
+				if core.IsNamed(x.X.Type(), core.PkgCh, "Options") {
+					used[fieldNameOnly(x.X.Type(), x.Field)] = x.Pos()
+				}
+			case *ssa.Field:
+				if core.IsNamed(x.X.Type(), core.PkgCh, "Options") {
+					used[fieldNameOnly(x.X.Type(), x.Field)] = x.Pos()
+				}
+			}
+		}
+	}
+	names := []string{}
+	for f := range used {
+		names = append(names, f)
+	}
+	sort.Strings(names)
+	for _, f := range names {
+		if _, ok := pkg.Scope().Lookup("Default" + f).(*types.Const); !ok {
+			continue
+		}
+		key := "Connect/Options." + f
+		if defaulted[f] {
+			c.R.Ok(rule, key, cfg, p.Pos(used[f]), "Connect reaches the store of Default"+f)
+		} else {
+			c.R.Bad(rule, key, cfg, p.Pos(used[f]), "Connect reads Options."+f+" but no function it calls fills it with Default"+f+": a client made with ch.Connect and zero options runs with "+f+" = 0 (for ReadTimeout: no read deadline at all, so a cancelled context is never noticed while the server is silent)")
+		}
+	}
 }
 
 // ---- codewidth (C13 / C04 / C03): a wire packet code is range-checked before it is narrowed
@@ -1194,4 +1330,135 @@ func ruleCodeWidth(c *Ctx, p *core.Program, rule string) {
 	}
 	c.R.Count("narrowing conversions of wire uvarints in package ch", n)
 	c.R.Floor(rule, cfg, n, 1)
+}
+
+// ---- watchdog (C13): the handshake watchdog is told to stand down only when nothing is left to read
+func ruleWatchdogStandDown(c *Ctx, p *core.Program, rule string, hs, hg *ssa.Function) {
+	c.R.Rule(rule, "the handshake reads its answer without a deadline of its own once packet() has returned (packet clears the read deadline); what bounds the rest of the answer is the watchdog goroutine, which closes the connection when the caller's context ends. The cancel function that tells the watchdog to stand down (context.WithCancel in handshake) is therefore called by the handshake goroutine only when it is leaving - deferred, or with no wire read (decode, exception, packet, flush) reachable after the call: standing the watchdog down after the packet code makes a truncated hello followed by silence block Connect forever")
+	cfg := p.Cfg.Name
+	// the cancel function: Extract #1 of context.WithCancel in handshake
+	var cancelVal ssa.Value
+	for _, call := range core.Calls(hs) {
+		if f := core.CalleeFunc(call); f != nil && core.IsFunc(f, "context", "WithCancel") {
+			if v := call.Value(); v != nil {
+				for _, r := range *v.Referrers() {
+					if e, ok := r.(*ssa.Extract); ok && e.Index == 1 {
+						cancelVal = e
+					}
+				}
+			}
+		}
+	}
+	if cancelVal == nil {
+		c.R.Unk(rule, core.FuncName(hs), cfg, p.Pos(hs.Pos()), "no context.WithCancel in handshake (watchdog anchor lost)")
+		return
+	}
+	isRead := func(in ssa.Instruction) bool {
+		return core.IsCallOf(in, isClientMethod("decode")) || core.IsCallOf(in, isClientMethod("packet")) || core.IsCallOf(in, isClientMethod("exception")) || core.IsCallOf(in, isClientMethod("flush"))
+	}
+	n := 0
+	for fn := range core.StaticReach(hg, 1) {
+		if pkgOf(fn) == nil || pkgOf(fn).Path() != core.PkgCh {
+			continue
+		}
+		for _, call := range core.Calls(fn) {
+			v := call.Common().Value
+			isCancel := false
+			if fv, ok := v.(*ssa.FreeVar); ok && fn == hg {
+				if b := freeVarBinding(hs, hg, fv.Name()); b == cancelVal {
+					isCancel = true
+				}
+			}
+			if u, ok := v.(*ssa.UnOp); ok && fn == hg {
+				if fv, ok := u.X.(*ssa.FreeVar); ok {
+					if b := freeVarBinding(hs, hg, fv.Name()); b != nil {
+						// the cancel func spilled into a cell
+						if al, ok := b.(*ssa.Alloc); ok {
+							for _, r := range *al.Referrers() {
+								if st, ok := r.(*ssa.Store); ok && st.Val == cancelVal {
+									isCancel = true
+								}
+							}
+						}
+					}
+				}
+			}
+			if !isCancel {
+				continue
+			}
+			n++
+			key := core.CallKey(fn, call) + "/stand-down"
+			if _, isDefer := call.(*ssa.Defer); isDefer {
+				c.R.Ok(rule, key, cfg, p.Pos(call.Pos()), "deferred: runs when the handshake goroutine leaves")
+				continue
+			}
+			w := core.ReachAvoiding(core.PointOf(call.(ssa.Instruction)), isRead, nil, nil)
+			if len(w) > 0 {
+				c.R.Bad(rule, key, cfg, p.Pos(call.Pos()), "the watchdog is told to stand down while the handshake still has to read: the rest of the answer is read with no deadline and no watchdog, so a server that sends part of its hello and goes silent blocks Connect / Dial forever", p.TrailString(w[0])...)
+			} else {
+				c.R.Ok(rule, key, cfg, p.Pos(call.Pos()), "nothing is read after the call")
+			}
+		}
+	}
+	if n == 0 {
+		c.R.Unk(rule, core.FuncName(hg), cfg, p.Pos(hg.Pos()), "the handshake goroutine never calls the watchdog's cancel function")
+	}
+}
+
+// ---- settings-end (C13 / C02 / C17): the settings list of a Query packet is terminated at every revision
+func ruleSettingsEnd(c *Ctx, p *core.Program, rule string) {
+	c.R.Rule(rule, "protocol fact (ClickHouse Connection::sendQuery / Settings::write): the settings section of a Query packet ends with an empty name at every revision - the string format (revision 54429) changed how a setting is written, not whether the list is terminated. Every path through Query.EncodeAware therefore passes a PutString of the empty constant; with the terminator moved under the format gate, a connection negotiated below 54429 gets a Query packet one byte short and the server reads the stage as a setting name. (The library's own Query decoder refuses those revisions, so the containment rules cannot see it.)")
+	cfg := p.Cfg.Name
+	enc := p.Method(core.PkgProto, "Query", "EncodeAware")
+	if !c.must(p, "proto.Query.EncodeAware", enc != nil) {
+		return
+	}
+	isEnd := func(in ssa.Instruction) bool {
+		call, ok := in.(ssa.CallInstruction)
+		if !ok {
+			return false
+		}
+		f := core.CalleeFunc(call)
+		if f == nil || !core.IsMethod(f, core.PkgProto, "Buffer", "PutString") {
+			return false
+		}
+		args := call.Common().Args
+		k, ok := args[len(args)-1].(*ssa.Const)
+		return ok && k.Value != nil && k.Value.Kind() == constant.String && constant.StringVal(k.Value) == ""
+	}
+	n := 0
+	for _, b := range enc.Blocks {
+		for _, in := range b.Instrs {
+			if isEnd(in) {
+				n++
+			}
+		}
+	}
+	key := "Query.EncodeAware/settings-terminator"
+	if n == 0 {
+		// the terminator may be written by a helper: look one level down
+		for _, call := range core.Calls(enc) {
+			if sf := core.StaticFn(call); sf != nil && sf.Blocks != nil && pkgOf(sf) != nil && pkgOf(sf).Path() == core.PkgProto {
+				for _, b := range sf.Blocks {
+					for _, in := range b.Instrs {
+						if isEnd(in) {
+							n++
+						}
+					}
+				}
+			}
+		}
+		if n == 0 {
+			c.R.Bad(rule, key, cfg, p.Pos(enc.Pos()), "Query.EncodeAware never writes an empty-name terminator")
+		} else {
+			c.R.Unk(rule, key, cfg, p.Pos(enc.Pos()), "the terminator is written by a helper: which paths pass it is not decided")
+		}
+		return
+	}
+	w := core.ReachAvoiding(core.Entry(enc), core.IsExit, isEnd, nil)
+	if len(w) > 0 {
+		c.R.Bad(rule, key, cfg, p.Pos(w[0].At.Pos()), "a path through Query.EncodeAware (some revision) writes no empty-name terminator at all: below the revision that gates it the settings section is unterminated and the packet is one byte short", p.TrailString(w[0])...)
+	} else {
+		c.R.Ok(rule, key, cfg, p.Pos(enc.Pos()), sprintf("an empty-name terminator lies on every path (%d written in all)", n))
+	}
 }
